@@ -680,6 +680,12 @@ pub fn c19(c: &Collector, g: &mut Guard) {
                         bch.push(vec![bytes[..cut].to_vec(), bytes[cut..].to_vec()]);
                     }
                 }
+                // fixed-size k-byte chunkings (a chunk may both start and end inside a multi-byte character)
+                if !p.is_ascii() {
+                    for k in 1..=6usize {
+                        bch.push(bytes.chunks(k).map(|x| x.to_vec()).collect());
+                    }
+                }
                 for (ci, chunks) in bch.iter().enumerate() {
                     n += 1;
                     let r = screen_after_bytes(&start, chunks, true);
@@ -695,10 +701,54 @@ pub fn c19(c: &Collector, g: &mut Guard) {
     for cr in crashes {
         c.crash(format!("C19 worker {} ended abnormally ({}), partition {:?}", cr.child, cr.how, cr.last_part));
     }
+    // histories: several OSC strings, resets and direct title changes through ONE parser
+    // (a parser that remembers what it sent last must not suppress a later, identical string)
+    let items: Vec<&str> = vec![
+        "\x1b]0;a\x07", "\x1b]1;a\x07", "\x1b]2;a\x1b\\", "\x1b]2;b\u{9c}", "\x1b]0;\x07", "\x1bc", "\x1b]1;\u{65e5}\u{672c}\x07",
+        "\x1b]9;a\x07", "q",
+    ];
+    let hlen = if c.thorough() { 4 } else { 3 };
+    let hbase = vec![crate::explore::Base { columns: 20, lines: 2, script: base_script.clone(), screen: start.clone() }];
+    crate::explore::sweep(
+        c,
+        &hbase,
+        |_| {
+            let mut words: Vec<Vec<usize>> = vec![vec![]];
+            let mut all: Vec<Vec<usize>> = Vec::new();
+            for _ in 0..hlen {
+                let mut next = Vec::new();
+                for w in &words {
+                    for i in 0..items.len() {
+                        let mut w2 = w.clone();
+                        w2.push(i);
+                        next.push(w2);
+                    }
+                }
+                all.extend(next.iter().cloned());
+                words = next;
+            }
+            let mut v = Vec::new();
+            for w in all {
+                let text: String = w.iter().map(|i| items[*i]).collect();
+                v.push(Op::Feed(vec![text.clone()], true));
+                if w.len() == hlen {
+                    // one feed() per item, and the byte parser
+                    v.push(Op::Feed(w.iter().map(|i| items[*i].to_string()).collect(), true));
+                    v.push(Op::FeedBytes(vec![text.as_bytes().to_vec()], true));
+                }
+            }
+            v
+        },
+        |c, t, local| {
+            local.count("osc_histories");
+            crate::judge::refine_all(c, "C19", "E1.osc-histories", t, local);
+        },
+    );
     c.add_states(c.counter("payloads"));
     c.sample(json!({"input": esc("\x1b]0;a;\\]\x1b\\x"), "expected_title": "a;\\]", "expected_icon": "a;\\]", "grid": "only 'x' at (3,1)", "cursor": "(4,1)"}));
     c.sample(json!({"input": esc("\u{9d}2;\u{e9} \x1ba\u{9c}x"), "expected_title": esc("\u{e9} \x1ba"), "expected_icon": "I0 (unchanged)"}));
     g.need(c, "osc_feeds");
+    g.need(c, "osc_histories");
 }
 
 #[allow(clippy::too_many_arguments)]
